@@ -85,7 +85,9 @@ func sanitizersForAttributeValue(c context) ([]string, error) {
 			}
 		}
 	}
-	if sc0.isEnum() && c.attr.value != "" {
+	if sc0.isEnum() && (c.attr.value != "" || c.attr.ambiguousValue) {
+		// An ambiguous value means that some branch of a conditional wrote static text before this
+		// action, even if the recorded value is empty.
 		return nil, fmt.Errorf("partial substitutions are disallowed in the %q attribute value context of a %q element", c.attr.name, c.element.name)
 	}
 	if sc0 == sanitizationContextStyle && c.attr.value != "" {
